@@ -166,6 +166,9 @@ class SimWorld:
     def make_events(self):
         for name in self.scenario.get("events", ()):
             self.events[name] = self.label(self.env.event(), "ev:" + name)
+        for head, tail in self.scenario.get("chains", ()):
+            # the chaining idiom: the tail inherits value or failure when the head is processed
+            self.events[head].callbacks.append(self.events[tail].trigger)
         for name in self.scenario.get("defusers", ()):
             # a callback that handles a failure of the event (SimPy: sets `defused`)
             self.events[name].callbacks.append(lambda ev: setattr(ev, "defused", True))
